@@ -6,8 +6,8 @@ from cmdline_check import run_cmdline_property
 
 def families(tier):
     if tier == "quick":
-        return D.val_family(SEED + 60, 42, maxlen=3, budget=5000)
-    return D.val_family(SEED + 60, 200, maxlen=4, budget=60000)
+        return D.val_family(SEED + 60, 42, maxlen=3, budget=5000) + D.env_family(SEED + 61, 22, maxlen=2, budget=300)
+    return D.val_family(SEED + 60, 200, maxlen=4, budget=60000) + D.env_family(SEED + 61, 66, maxlen=3, budget=3000)
 
 
 def enrich(cases, out):
@@ -16,6 +16,8 @@ def enrich(cases, out):
     table = {}
     rows = list(read_ndjson(cases))
     for c in rows:
+        if not isinstance(c.get("env"), dict):
+            c["env"] = {}
         table[(c["def"], tuple(i["txt"] for i in c["line"]))] = c["expect"]["class"]
     n = 0
     with open(out, "w") as w:
